@@ -493,7 +493,7 @@ class Engine:
 
         rng = random.Random(plan["order_seed"] + 1)
         n_f = min(len(files), rng.choice([2, 2, 3]))
-        folders = [os.path.join(sandbox, n) for n in ["lib", "lib2", "lib_more"][:n_f]]  # (names that are string prefixes of each other)
+        folders = [os.path.join(sandbox, "multi", n) for n in ["lib", "lib2", "lib_more"][:n_f]]  # (names that are string prefixes of each other)
         for d in folders:
             os.makedirs(d)
         for k, (rel, txt, _own) in enumerate(files):
@@ -519,6 +519,6 @@ class Engine:
                         return ("exception" if out[0] != "ok" else "wrong_result", "api:_compile_model",
                                 ["api_folders", pc, "class_fails" if out[0] != "ok" else "different_variables"],
                                 "transfer_model(%s) with the files spread over folders %s given in order %s %s; from the "
-                                "single-file library it compiles" % (c, ["f%d" % k for k in range(n_f)], list(order),
+                                "single-file library it compiles" % (c, [os.path.basename(f) for f in folders], list(order),
                                                                     "raises %s" % out[1] if out[0] != "ok" else "has other variables"))
         return None
